@@ -794,12 +794,12 @@ namespace
     }
     value resize_array_scalar(runtime& runtime, value::cref left, value::cref right)
     {
-        auto i = right.data<d_scalar, size_t>();
-        if (i < 0)
-        {
+        if (right.data<d_scalar, float>() < 0)
+        { // has to be tested on the number itself: the unsigned size can never be negative
             runtime.__logmsg(err::NegativeSize(runtime.context_active().current_frame().diag_info_from_position()));
             return {};
         }
+        auto i = right.data<d_scalar, size_t>();
         left.data<d_array>()->resize(i);
         return {};
     }
